@@ -8,6 +8,8 @@ import (
 	"os"
 	"path/filepath"
 	"regexp"
+	"runtime/debug"
+	"runtime/pprof"
 	"sort"
 	"strings"
 	"time"
@@ -32,7 +34,7 @@ func main() {
 	pkgDir := flag.String("pkgdir", "", "directory of the package (overlay target)")
 	overlayDir := flag.String("overlay", "", "directory whose *.go files are overlaid into pkgdir")
 	harnessRe := flag.String("harness", "^Verif", "regexp selecting harness functions")
-	solverName := flag.String("solver", "z3", "z3 | z3-new | cvc5")
+	solverName := flag.String("solver", "z3-new", "z3 | z3-new | cvc5")
 	maxPaths := flag.Int("max-paths", 20000, "path budget per harness")
 	timeout := flag.Int("timeout", 600, "seconds per harness")
 	qTimeout := flag.Int("query-timeout", 60000, "ms per solver query")
@@ -41,8 +43,17 @@ func main() {
 	smtLog := flag.String("smtlog", "", "log solver dialogue to file")
 	maxSteps := flag.Int("max-steps", 20000000, "instruction budget per path")
 	tags := flag.String("tags", "verif", "build tags")
+	cpuprof := flag.String("cpuprofile", "", "write cpu profile")
+	noDom := flag.Bool("no-dom", false, "disable the exact small-symbol domain shortcut (every decision goes to the SMT solver)")
+	shard := flag.String("shard", "", "i/n: explore only alternatives i, i+n, ... of the first free choice")
 	flag.Parse()
+	if *cpuprof != "" {
+		f, _ := os.Create(*cpuprof)
+		pprof.StartCPUProfile(f)
+		defer pprof.StopCPUProfile()
+	}
 
+	debug.SetGCPercent(400)
 	result := &RunOutput{Package: *pkgPat, Solver: *solverName}
 	writeOut := func() {
 		b, _ := json.MarshalIndent(result, "", " ")
@@ -120,6 +131,7 @@ func main() {
 		fail("solver: %v", err)
 	}
 	defer solver.Close()
+	solver.noDom = *noDom
 
 	ex := &Exec{
 		prog:     prog,
@@ -131,8 +143,12 @@ func main() {
 		onceDone: map[string]bool{},
 	}
 	result.FuncHash = map[string]string{}
+	shardI, shardN := 0, 1
+	if *shard != "" {
+		fmt.Sscanf(*shard, "%d/%d", &shardI, &shardN)
+	}
 	for _, h := range harnesses {
-		r := RunHarness(ex, solver, h, *maxPaths, time.Duration(*timeout)*time.Second, *witness)
+		r := RunHarness(ex, solver, h, *maxPaths, time.Duration(*timeout)*time.Second, *witness, shardI, shardN)
 		result.Harnesses = append(result.Harnesses, r)
 		for _, f := range r.Funcs {
 			if _, ok := result.FuncHash[f]; !ok {
